@@ -7,6 +7,7 @@ import (
 	"runtime"
 	"strings"
 	"sync"
+	"sync/atomic"
 	"time"
 
 	bs "github.com/danthegoodman1/bloomsearch"
@@ -186,6 +187,7 @@ type scriptOutcome struct {
 
 // scriptWorld is a prebuilt data set shared by a case's scripts.
 type scriptWorld struct {
+	bigRegion bool
 	w    *world.World
 	d    *world.Descriptor
 	inv  []*world.FileInv
@@ -301,6 +303,18 @@ func buildScriptWorld(rc *RunCtx, i int) (*scriptWorld, error) {
 			return nil, err
 		}
 	}
+	if i%6 == 5 && (rc.ID == "C23" || rc.Tier == "thorough") {
+		// one externally written file whose block filter region spans several read chunks
+		// (about 1 MiB per section): a failed read can then hit the second or a later chunk,
+		// after some of the file's blocks have already been evaluated
+		xd, err := w.AddExtFile(r.Split("bigregion"), 0, r.Range(12, 25), 160000)
+		if err != nil {
+			w.Close()
+			return nil, err
+		}
+		sw.d.Ext = append(sw.d.Ext, xd)
+		sw.bigRegion = true
+	}
 	inv, err := w.Inventory()
 	if err != nil {
 		w.Close()
@@ -376,7 +390,12 @@ func runScripts(rc *RunCtx, i int, forProp string) {
 				sc.Faults = append(sc.Faults, faultSpec{Kind: kind, N: r.Range(0, 12)})
 			}
 		}
-		if r.Chance(0.15) {
+		if sw.bigRegion && r.Chance(0.6) {
+			// a read failure in the middle of a multi-chunk filter pass, query left to run to the end
+			sc.Faults = []faultSpec{{Kind: "Read", N: r.Range(1, 9)}}
+			sc.Steps = []scriptStep{{Op: "drain"}}
+			rc.Res.Count("scripts_fault_in_multichunk_filter_pass", 1)
+		} else if r.Chance(0.15) {
 			// the MetaStore iterator is suspended (ctx-honouring wait) when the consumer cancels/closes
 			sc.IterGate = r.Range(1, 3)
 			sc.Faults = nil
@@ -405,11 +424,11 @@ func runScripts(rc *RunCtx, i int, forProp string) {
 			q = &bs.Query{Bloom: &bs.BloomQuery{Expression: &e}}
 		}
 		sc.Query = queryJSON(q)
-		runOneScript(rc, i, k, sw, sc, q, forProp)
+		runOneScript(rc, i, k, sw, sc, q, forProp, pm)
 	}
 }
 
-func runOneScript(rc *RunCtx, i, k int, sw *scriptWorld, sc *scriptCase, q *bs.Query, forProp string) {
+func runOneScript(rc *RunCtx, i, k int, sw *scriptWorld, sc *scriptCase, q *bs.Query, forProp string, pm *pointMon) {
 	e := sw.engs[sc.Variant]
 	wit := func(extra any) map[string]any {
 		return map[string]any{"script": sc, "data": sw.d, "detail": extra}
@@ -460,6 +479,25 @@ func runOneScript(rc *RunCtx, i, k int, sw *scriptWorld, sc *scriptCase, q *bs.Q
 	out := &scriptOutcome{}
 	done := make(chan struct{})
 	var asyncWG sync.WaitGroup
+	// A concurrent Close is held right after it cancelled the query until the consumer's Next has
+	// returned false and the consumer has read Err (or 40 ms): the terminal state the consumer
+	// saw then must be the one that stays.
+	var consumerSawFalse atomic.Bool
+	holdClose := false
+	for _, st := range sc.Steps {
+		if st.Op == "closeAsync" {
+			holdClose = true
+		}
+	}
+	if holdClose && k%2 == 0 {
+		pm.on("results.close.canceled", func() {
+			for t := 0; t < 160 && !consumerSawFalse.Load(); t++ {
+				time.Sleep(250 * time.Microsecond)
+			}
+		})
+		defer pm.on("results.close.canceled", nil)
+		rc.Res.Count("scripts_close_held_behind_next", 1)
+	}
 	go func() {
 		defer close(done)
 		canceled, closed := false, false
@@ -469,6 +507,7 @@ func runOneScript(rc *RunCtx, i, k int, sw *scriptWorld, sc *scriptCase, q *bs.Q
 				out.canceledBefore = canceled
 				out.closedBefore = closed
 				out.errAfter = rs.Err()
+				consumerSawFalse.Store(true)
 				// sticky: ten more Next calls stay false, Row stays nil
 				for t := 0; t < 10; t++ {
 					if rs.Next() {
@@ -533,6 +572,11 @@ func runOneScript(rc *RunCtx, i, k int, sw *scriptWorld, sc *scriptCase, q *bs.Q
 			}
 		}
 		asyncWG.Wait()
+		if out.firstFalse && out.errChanged == "" {
+			if e3 := rs.Err(); !sameErr(e3, out.errAfter) {
+				out.errChanged = fmt.Sprintf("the terminal state the consumer read when Next returned false (%v) was replaced once a concurrent Close returned (%v)", out.errAfter, e3)
+			}
+		}
 		out.stats = rs.Stats()
 	}()
 	switch verdict := awaitProgress(done); {
